@@ -2,6 +2,7 @@
    active states := initial states; history memory := initial states; user-supplied substate instances (states_ << ...) copied in;
    and only THEN fill_states(this), which marks every submachine as contained (m_is_included: a contained machine never reports
    no_transition itself and forwards exit-point events to its container) and wires the back pointers. */
+#if UNIT_CTORS
 extern int g_cs;
 #ifndef HAS_EXPR
 #define HAS_EXPR 0
@@ -32,6 +33,7 @@ __CPROVER_requires(__CPROVER_is_fresh(self, sizeof(*self)) && g_cs == 0)
 __CPROVER_assigns(g_cs)
 __CPROVER_ensures(g_cs == 4)                                                                               /*@ob C03,C06.machine-fully-constructed-states-created-and-marked-last */
 ;
+#endif
 
 /* ---- fill_states / set_containing_sm / add_state: wiring of the substates (run at construction and again after a copy) ---- */
 #if UNIT_ADD_STATE
@@ -78,5 +80,74 @@ void set_containing_sm(fsm_t* self, fsm_t* sm)
 __CPROVER_requires(__CPROVER_is_fresh(self, sizeof(*self)) && sm == g_container && g_wired == 0)
 __CPROVER_assigns(self->m_is_included, g_wired)
 __CPROVER_ensures(self->m_is_included && g_wired == 1)                                                     /*@ob C06,C07.a-machine-told-its-container-is-contained */
+;
+#endif
+
+/* ---- copy assignment / copy constructor of state_machine, copy_helper, fill_states (C15) ---- */
+#if UNIT_COPY_OPS
+extern const fsm_t* const g_rhs; extern int g_ops;          /* step ledger */
+void Derived_assign(fsm_t* self, const fsm_t* rhs)           /* Derived::operator=(rhs): front-end data */
+__CPROVER_requires(g_ops == 0 && rhs == g_rhs && self != rhs)                     /*@ob C15.front-end-data-copied-first-never-onto-itself */
+__CPROVER_assigns(g_ops)
+__CPROVER_ensures(g_ops == 1)
+;
+void fill_states(fsm_t* self, fsm_t* containing_sm)          /* (copy constructor) create and wire the own substates before copying into them */
+__CPROVER_requires(g_ops == 0 && containing_sm == self && self != g_rhs)          /*@ob C15.copy-has-its-own-wired-substates-before-the-contents-are-copied */
+__CPROVER_assigns(g_ops)
+__CPROVER_ensures(g_ops == 1)
+;
+void do_copy(fsm_t* self, const fsm_t* rhs)                  /* units <be>.do_copy */
+__CPROVER_requires(g_ops == 1 && rhs == g_rhs && self != rhs)                     /*@ob C15.back-end-state-copied-once-from-the-source */
+__CPROVER_assigns(g_ops)
+__CPROVER_ensures(g_ops == 2)
+;
+fsm_t* copy_assign(fsm_t* self, const fsm_t* rhs)
+__CPROVER_requires(__CPROVER_is_fresh(self, sizeof(*self)) && rhs == g_rhs && g_ops == 0)
+__CPROVER_assigns(g_ops)
+__CPROVER_ensures(g_ops == (self == rhs ? 0 : 2))                                                         /*@ob C15.assignment-copies-everything-self-assignment-changes-nothing */
+__CPROVER_ensures(__CPROVER_return_value == self)
+;
+void copy_construct(fsm_t* self, const fsm_t* rhs)
+__CPROVER_requires(__CPROVER_is_fresh(self, sizeof(*self)) && rhs == g_rhs && g_ops == 0)
+__CPROVER_assigns(g_ops)
+__CPROVER_ensures(g_ops == (self == rhs ? 0 : 2))                                                         /*@ob C15.copy-construction-wires-own-substates-then-copies */
+;
+#endif
+#if UNIT_COPY_HELPER
+extern int g_vis, g_smset2; extern const _Bool g_has_accept_sig;
+void copy_visitor_helper(fsm_t* m_sm, type_t StateType, int id)
+__CPROVER_requires(g_vis == 0)
+__CPROVER_assigns(g_vis)
+__CPROVER_ensures(g_vis == 1)
+;
+void create_state_set_sm(type_t StateType, fsm_t* m_sm)
+__CPROVER_requires(g_smset2 == 0 && m_sm == g_self2)                              /*@ob C15.copied-substates-point-back-to-the-copy-not-to-the-original */
+__CPROVER_assigns(g_smset2)
+__CPROVER_ensures(g_smset2 == 1)
+;
+extern fsm_t* const g_self2;
+typedef struct { fsm_t* m_sm; } copy_helper_t;
+void copy_helper_call(copy_helper_t* self, type_t StateType)
+__CPROVER_requires(__CPROVER_is_fresh(self, sizeof(*self)) && self->m_sm == g_self2 && g_vis == 0 && g_smset2 == 0)
+__CPROVER_assigns(g_vis, g_smset2)
+__CPROVER_ensures(g_smset2 == 1)                                                                           /*@ob C15.copied-substates-point-back-to-the-copy-not-to-the-original */
+;
+#endif
+#if UNIT_FILL_STATES
+extern fsm_t* const g_container; extern int g_fs;
+void fill_visitors(fsm_t* self, int max_state)
+__CPROVER_requires(g_fs == 0)
+__CPROVER_assigns(g_fs)
+__CPROVER_ensures(g_fs == 1)
+;
+void wire_substates(fsm_t* self, fsm_t* containing_sm)        /* fusion::for_each(m_substate_list, add_state<ContainingSM>(this, containing_sm)): unit <be>.add_state.call per substate */
+__CPROVER_requires(g_fs == 1 && containing_sm == g_container)                     /*@ob C07,C09.substates-are-wired-to-the-machine-passed-as-container */
+__CPROVER_assigns(g_fs)
+__CPROVER_ensures(g_fs == 2)
+;
+void fill_states_unit(fsm_t* self, fsm_t* containing_sm)
+__CPROVER_requires(__CPROVER_is_fresh(self, sizeof(*self)) && containing_sm == g_container && g_fs == 0)
+__CPROVER_assigns(g_fs)
+__CPROVER_ensures(g_fs == 2)                                                                               /*@ob C07.every-substate-created-and-wired */
 ;
 #endif
